@@ -138,6 +138,9 @@ struct CycleRegister {
 
 impl CycleRegister {
     fn cycle<'e>(&mut self, name: &str, values: &'e [Expression]) -> Result<&'e Expression> {
+        if values.is_empty() {
+            return Error::with_msg("cycle requires at least one value").into_err();
+        }
         let index = self.cycle_index(name, values.len());
         if index >= values.len() {
             return Error::with_msg(
